@@ -1058,10 +1058,15 @@ def generate_sample_specs(
 
     gapic_metadata = api_schema.gapic_metadata(opts)
 
+    # Services may live in proto sub-packages, so look them up by their name
+    # rather than by `<proto package>.<name>`.
+    services_by_name = {
+        service.name: (key, service) for key, service in api_schema.services.items()
+    }
+
     for service_name, service in gapic_metadata.services.items():
-        api_short_name = api_schema.services[
-            f"{api_schema.naming.proto_package}.{service_name}"
-        ].shortname
+        service_key, api_service = services_by_name[service_name]
+        api_short_name = api_service.shortname
         api_version = api_schema.naming.version
         supports_grpc = _supports_grpc(service)
         for transport, client in service.clients.items():
@@ -1074,7 +1079,7 @@ def generate_sample_specs(
                 region_tag = f"{api_short_name}_{api_version}_generated_{service_name}_{rpc_name}_{sync_or_async}"
 
                 is_internal = api_schema.all_methods[
-                    f"{api_schema.naming.proto_package}.{service_name}.{rpc_name}"
+                    f"{service_key}.{rpc_name}"
                 ].is_internal
                 if is_internal:
                     region_tag += "_internal"
@@ -1083,7 +1088,7 @@ def generate_sample_specs(
                     "rpc": rpc_name,
                     "transport": transport,
                     # `request` and `response` are populated in `preprocess_sample`
-                    "service": f"{api_schema.naming.proto_package}.{service_name}",
+                    "service": service_key,
                     "region_tag": region_tag,
                     "description": f"Snippet for {utils.to_snake_case(rpc_name)}",
                 }
